@@ -2,6 +2,8 @@ package main
 
 import (
 	"fmt"
+	"go/constant"
+	"go/token"
 	"go/types"
 	"sort"
 	"strings"
@@ -12,7 +14,7 @@ import (
 // knownScanKinds lists the scan kinds runScan implements; the contract parser rejects every other word (an unknown
 // kind used to fall through to the writer scan, which found no writer and reported the obligation as discharged).
 var knownScanKinds = map[string]bool{"maprange": true, "gostmts": true, "recoverguard": true, "typekeys": true, "defercalls": true,
-	"assertorder": true, "extcalls": true, "pkgglobals": true, "fieldwriters": true, "globalwriters": true, "structfields": true, "recursive": true}
+	"assertorder": true, "extcalls": true, "pkgglobals": true, "fieldwriters": true, "globalwriters": true, "structfields": true, "recursive": true, "armeffects": true}
 
 // runScan evaluates one syntactic obligation over the SSA of its package.
 func (p *Program) runScan(sc *Scan) *UnitResult {
@@ -173,6 +175,9 @@ func (p *Program) runScan(sc *Scan) *UnitResult {
 			o.Output = strings.Join(offenders, "; ")
 		}
 		return res
+	}
+	if sc.Kind == "armeffects" {
+		return p.scanArmEffects(sc, o, res)
 	}
 	if sc.Kind == "recursive" {
 		// recursive <pkg>: f1 f2 ... - every function of the package that lies on a cycle of the package's call graph
@@ -843,4 +848,256 @@ func defersRecover(fn *ssa.Function) bool {
 		}
 	}
 	return false
+}
+
+
+// scanArmEffects: armeffects <function>: <Op>=<e1>/<e2>/... ~<helper>=<n> ...
+// <function> is an interpreter loop: a for statement around a switch on an opcode value. For every case of that switch
+// the scan computes, over the SSA of the function, the set of net stack effects of all paths from the case's first block
+// back to the head of the loop: +1 for each call of the method push, -1 for each pop, +n for each call of a listed
+// helper (~callObject=1), and a trailing "j" when the path itself stores the field ip (a jump; operand fetches move
+// ip inside fetch and do not count). Paths that end in a return or a panic are not counted (they leave the loop).
+// A case whose blocks contain a cycle is reported as "loop" (its effect depends on an operand). Each computed set
+// must be a subset of the listed one, every case must be listed, and every listed opcode must exist.
+func (p *Program) scanArmEffects(sc *Scan, o *Obl, res *UnitResult) *UnitResult {
+	fail := func(msg string) *UnitResult { o.Status = "sat"; o.Output = msg; return res }
+	want := map[string]map[string]bool{}
+	helpers := map[string]int{}
+	for _, a := range sc.Allowed {
+		eq := strings.Index(a, "=")
+		if eq < 0 {
+			return fail("armeffects: expected <Op>=<effects> or ~<helper>=<n>, got " + a)
+		}
+		k, v := a[:eq], a[eq+1:]
+		if strings.HasPrefix(k, "~") {
+			n := 0
+			fmt.Sscanf(v, "%d", &n)
+			helpers[k[1:]] = n
+			continue
+		}
+		want[k] = map[string]bool{}
+		for _, e := range strings.Split(v, "/") {
+			want[k][e] = true
+		}
+	}
+	var fn *ssa.Function
+	for key, f := range p.fnByKey {
+		if f.Pkg != nil && f.Pkg.Pkg.Path() == sc.Pkg && strings.TrimPrefix(shortKey(key), f.Pkg.Pkg.Name()+".") == sc.Target {
+			fn = f
+		}
+	}
+	if fn == nil || fn.Blocks == nil {
+		return fail("function " + sc.Target + " not found")
+	}
+	// the opcode value: the operand compared with constants of a named integer type most often
+	count := map[ssa.Value]int{}
+	type test struct {
+		blk  *ssa.BasicBlock
+		x    ssa.Value
+		k    *ssa.Const
+		body *ssa.BasicBlock
+	}
+	var tests []test
+	for _, b := range fn.Blocks {
+		if len(b.Instrs) == 0 {
+			continue
+		}
+		iff, ok := b.Instrs[len(b.Instrs)-1].(*ssa.If)
+		if !ok {
+			continue
+		}
+		bo, ok := iff.Cond.(*ssa.BinOp)
+		if !ok || bo.Op != token.EQL {
+			continue
+		}
+		k, ok := bo.Y.(*ssa.Const)
+		if !ok {
+			continue
+		}
+		if _, named := bo.X.Type().(*types.Named); !named {
+			continue
+		}
+		count[bo.X]++
+		tests = append(tests, test{b, bo.X, k, b.Succs[0]})
+	}
+	var opv ssa.Value
+	for v, n := range count {
+		if opv == nil || n > count[opv] {
+			opv = v
+		}
+	}
+	if opv == nil || count[opv] < 4 {
+		return fail("no opcode switch found in " + sc.Target)
+	}
+	// names of the constants of the opcode type
+	names := map[int64]string{}
+	if named, ok := opv.Type().(*types.Named); ok && named.Obj().Pkg() != nil {
+		scope := named.Obj().Pkg().Scope()
+		for _, n := range scope.Names() {
+			if c, ok := scope.Lookup(n).(*types.Const); ok && types.Identical(c.Type(), named) {
+				if v, ok := constant.Int64Val(c.Val()); ok {
+					if _, dup := names[v]; !dup {
+						names[v] = n
+					}
+				}
+			}
+		}
+	}
+	arms := map[*ssa.BasicBlock][]string{}
+	var first *ssa.BasicBlock
+	isTest := map[*ssa.BasicBlock]bool{}
+	for _, t := range tests {
+		if t.x != opv {
+			continue
+		}
+		isTest[t.blk] = true
+		if first == nil || t.blk.Index < first.Index {
+			first = t.blk
+		}
+		nm := t.k.Value.String()
+		if v, ok := constant.Int64Val(t.k.Value); ok && names[v] != "" {
+			nm = names[v]
+		}
+		arms[t.body] = append(arms[t.body], nm)
+	}
+	// head of the interpreter loop: the closest dominator of the first test that is the target of a back edge
+	var head *ssa.BasicBlock
+	for b := first; b != nil; b = b.Idom() {
+		for _, pr := range b.Preds {
+			if b.Dominates(pr) {
+				head = b
+			}
+		}
+		if head != nil {
+			break
+		}
+	}
+	if head == nil {
+		return fail("no loop around the opcode switch of " + sc.Target)
+	}
+	type eff struct {
+		d int
+		j bool
+	}
+	blockEff := func(b *ssa.BasicBlock) (eff, bool) { // effect, leavesLoop
+		e := eff{}
+		for _, in := range b.Instrs {
+			switch x := in.(type) {
+			case *ssa.Return, *ssa.Panic:
+				return e, true
+			case *ssa.Store:
+				if fa, ok := x.Addr.(*ssa.FieldAddr); ok {
+					if st, ok := fa.X.Type().Underlying().(*types.Pointer); ok {
+						if sst, ok := st.Elem().Underlying().(*types.Struct); ok && sst.Field(fa.Field).Name() == "ip" {
+							e.j = true
+						}
+					}
+				}
+			case ssa.CallInstruction:
+				if _, isDefer := in.(*ssa.Defer); isDefer {
+					continue
+				}
+				if c := x.Common().StaticCallee(); c != nil {
+					switch {
+					case c.Name() == "push" && c.Signature.Recv() != nil:
+						e.d++
+					case c.Name() == "pop" && c.Signature.Recv() != nil:
+						e.d--
+					default:
+						if n, ok := helpers[c.Name()]; ok {
+							e.d += n
+						}
+					}
+				}
+			}
+		}
+		return e, false
+	}
+	var problems []string
+	seenOps := map[string]bool{}
+	var bodies []*ssa.BasicBlock
+	for b := range arms {
+		bodies = append(bodies, b)
+	}
+	sort.Slice(bodies, func(i, j int) bool { return bodies[i].Index < bodies[j].Index })
+	for _, body := range bodies {
+		memo := map[*ssa.BasicBlock]map[eff]bool{}
+		onPath := map[*ssa.BasicBlock]bool{}
+		loop := false
+		var from func(b *ssa.BasicBlock) map[eff]bool
+		from = func(b *ssa.BasicBlock) map[eff]bool {
+			if b == head {
+				return map[eff]bool{{}: true}
+			}
+			if m, ok := memo[b]; ok {
+				return m
+			}
+			if onPath[b] {
+				loop = true
+				return map[eff]bool{}
+			}
+			onPath[b] = true
+			out := map[eff]bool{}
+			e, leaves := blockEff(b)
+			if !leaves {
+				for _, s := range b.Succs {
+					for t := range from(s) {
+						out[eff{e.d + t.d, e.j || t.j}] = true
+					}
+				}
+			}
+			onPath[b] = false
+			memo[b] = out
+			return out
+		}
+		got := from(body)
+		var gs []string
+		for e := range got {
+			s := fmt.Sprint(e.d)
+			if e.j {
+				s += "j"
+			}
+			gs = append(gs, s)
+		}
+		if loop {
+			gs = []string{"loop"}
+		}
+		sort.Strings(gs)
+		for _, nm := range arms[body] {
+			seenOps[nm] = true
+			w, ok := want[nm]
+			if !ok {
+				problems = append(problems, fmt.Sprintf("%s: not listed (computed %s)", nm, strings.Join(gs, "/")))
+				continue
+			}
+			for _, g := range gs {
+				if !w[g] {
+					problems = append(problems, fmt.Sprintf("%s: a path with effect %s (listed: %s; computed: %s)", nm, g, strings.Join(sc.allowedFor(nm), "/"), strings.Join(gs, "/")))
+				}
+			}
+		}
+	}
+	for nm := range want {
+		if !seenOps[nm] {
+			problems = append(problems, nm+": listed but not a case of the switch")
+		}
+	}
+	sort.Strings(problems)
+	if len(problems) == 0 && len(seenOps) > 0 {
+		o.Status = "unsat"
+		o.Output = fmt.Sprintf("%d cases of the opcode switch of %s: every path back to the loop head has a listed stack effect", len(seenOps), sc.Target)
+	} else {
+		o.Status = "sat"
+		o.Output = strings.Join(problems, "; ")
+	}
+	return res
+}
+
+func (sc *Scan) allowedFor(op string) []string {
+	for _, a := range sc.Allowed {
+		if strings.HasPrefix(a, op+"=") {
+			return strings.Split(a[len(op)+1:], "/")
+		}
+	}
+	return nil
 }
